@@ -20,6 +20,8 @@ def must_propagate(P, rep, rule, fnkey, pred, label, min_count=1):
             continue
         tr = Tracker(P, fn, lambda f2, t2: False)
         probs = tr.run(t["t"], 0, {t["d"][0]: "R"})
+        # a result handed to expect()/unwrap() is not swallowed (it panics instead: R-PANIC's business, not this rule's)
+        probs = [(w, l) for (w, l) in probs if not ("::expect`" in w or "::unwrap`" in w or w.rstrip("`").endswith(("::expect", "::unwrap")))]
         if probs:
             for what, line in probs:
                 rep.viol(rule, site, P.where(fn, line), "lookup error is not propagated: " + what)
